@@ -291,6 +291,24 @@ type EmbRoot struct {
 	EmbBase
 	Rest []string `( ";" @Ident )*`
 }
+
+// a production that is referenced only from inside lookahead groups
+type LookKw struct {
+	K string `@"if" | @"for"`
+}
+type LookOnly struct {
+	Guard *LookKw `(?= @@ )`
+	Not   *LookKw `(?! @@ @@ )`
+	V     string  `@Ident`
+}
+
+// a type whose name starts with a non-ASCII letter
+type élément struct {
+	V string `@Ident`
+}
+type Ärger struct {
+	E []*élément `@@*`
+}
 type lowerRoot struct {
 	V string `@Ident "x"`
 }
@@ -333,6 +351,8 @@ func statics() []struct {
 		{"embedded", "EmbRoot", func() (string, error) { return gramreg.Describe[EmbRoot]() }},
 		{"lower-case root", "LowerRoot", func() (string, error) { return gramreg.Describe[lowerRoot]() }},
 		{"quoted", "Quoted", func() (string, error) { return gramreg.Describe[Quoted]() }},
+		{"production referenced only inside lookahead groups", "LookOnly", func() (string, error) { return gramreg.Describe[LookOnly]() }},
+		{"type names that start with a non-ASCII letter", "Ärger", func() (string, error) { return gramreg.Describe[Ärger]() }},
 		{"default lexer", "RecExpr", mk(func() (fmt.Stringer, error) { return participle.Build[RecExpr]() })},
 	}
 }
